@@ -168,6 +168,8 @@ def gen_setup_py(rng, n):
         yield "setup.py", "from setuptools import setup\n\nsetup(\n    name='p',\n    install_requires=[\n%s    ],\n)\n# end\n" % "".join(f"        {x},\n" for x in q), {}
         if q:
             yield "setup.py", "from setuptools import setup; setup(name='p', install_requires=[%s])\n" % ", ".join(q), {}
+            sq = ["'" + r.replace("'", '"') + "'" for r in reqs]
+            yield "setup.py", "from setuptools import setup\n\nsetup(\n    name='p',\n    install_requires=[\n%s    ],\n)\n" % "".join(f"        {x},\n" for x in sq), {}
 
 
 # ---- one evaluation ----------------------------------------------------------------------------------------------------------
